@@ -626,3 +626,38 @@ package fsutil
 //@   ensures samepath: cnt(WalkFn) > old(cnt(WalkFn)) ==> arg(WalkFn, 0) == path && arg(WalkFn, 2) == nil
 //@   ensures recorded: cnt(WalkFn) > old(cnt(WalkFn)) && isptr(arg(WalkFn, 1), dirEntryWithStat) && !isptr(entry, dirEntryWithStat) ==> haskey(seenFiles, path)
 //@   ensures representative: cnt(WalkFn) > old(cnt(WalkFn)) && isptr(arg(WalkFn, 1), dirEntryWithStat) && !isptr(entry, dirEntryWithStat) ==> asptr(arg(WalkFn, 1), dirEntryWithStat).stat != nil && (asptr(arg(WalkFn, 1), dirEntryWithStat).stat.Linkname == "" || (exists k string :: old(haskey(seenFiles, k)) && asptr(arg(WalkFn, 1), dirEntryWithStat).stat.Linkname == old(seenFiles[k])))
+
+// ---------------------------------------------------------------------------
+// filter.go: bookkeeping of the filtered walk (C10). Whether a pattern matches is
+// decided by moby/patternmatcher (regexp) and is not decided here; see the
+// bounded stand-in for the equality with the reference filter.
+// ---------------------------------------------------------------------------
+
+//@ func patternWithoutTrailingGlob
+//@   property C10
+//@   ensures stripped: result == strings.TrimSuffix(strings.TrimSuffix(p.String(), "/**"), "/*")
+
+//@ func isNotExist
+//@   property C10 C09
+//@   ensures nilerr: err == nil ==> true
+
+// The stack of visited directories: every entry's prefix ends with the separator
+// (so a sibling whose name merely extends a directory's name is never taken for
+// a descendant) - required on entry, re-established on exit. Emission: nothing is
+// reported for a skipped entry; the map function is consulted before an entry or
+// a pending ancestor is reported; an ancestor is marked before it is reported
+// (never reported twice); the pruning prefix tests compare separator-terminated
+// strings.
+//@ pred specEndsWithSep(s string) bool = len(s) > 0 && s[len(s)-1] == '/'
+//@ func filterFS.Walk$1
+//@   property C10
+//@   requires fs != nil
+//@   requires stack: forall k int :: 0 <= k && k < len(parentDirs) ==> specEndsWithSep(parentDirs[k].pathWithSep)
+//@   modifies heap
+//@   effects *
+//@   loop 0 invariant stack: forall k int :: 0 <= k && k < len(parentDirs) ==> specEndsWithSep(parentDirs[k].pathWithSep)
+//@   loop 3 invariant stack: forall k int :: 0 <= k && k < len(parentDirs) ==> specEndsWithSep(parentDirs[k].pathWithSep)
+//@   ensures stack: forall k int :: 0 <= k && k < len(parentDirs) ==> specEndsWithSep(parentDirs[k].pathWithSep)
+//@   at call strings.HasPrefix: separator_terminated: specEndsWithSep(arg1) && (arg0 == path || specEndsWithSep(arg0))
+//@   at call filterFS.Walk.fn: not_skipped: !skip && walkErr == nil
+//@   at call filterFS.Walk.fn: map_consulted_first: fs.mapFn == nil || cnt(MapFn) > old(cnt(MapFn))
